@@ -87,10 +87,15 @@ def run(ctx: core.Ctx):
     n = 2000 if ctx.quick else 20000
     worst = 0.0
     specials = [0.0, 1.0, 0.5, math.nextafter(0.5, 0), math.nextafter(0.5, 1), math.nextafter(1.0, 0), math.nextafter(0.0, 1), 5e-324, 1e-300]
+    edge = [0.0, 5e-324, 1e-300, 1e-17, 2.0 ** -53, 1e-9, 2.0 ** -10, 0.25, math.nextafter(0.5, 0), 0.5, math.nextafter(0.5, 1), 0.75,
+            1 - 2.0 ** -10, 1 - 2.0 ** -30, 1 - 2.0 ** -52, math.nextafter(1.0, 0), 1.0]
+    pairs = [(a, b) for a in edge for b in edge]
     for op in TN + SN:
         o = objs[op]
-        for i in range(n):
-            if i % 10 == 0:
+        for i in range(n + len(pairs)):
+            if i >= n:
+                a, b = pairs[i - n]   # every pair of the edge palette: next to 0, 1/2 and 1, tiny and denormal values
+            elif i % 10 == 0:
                 a, b = rng.choice(specials), rng.choice(specials + [rng.random()])
             elif i % 10 == 1:
                 a = rng.random()
@@ -101,11 +106,11 @@ def run(ctx: core.Ctx):
             ref, margin = pyref.norm(op, Fraction(a), Fraction(b))
             got = float(o.compute(a, b))
             sample = {"op": op, "a": a, "b": b}
-            if margin < 1e-12 and margin != 0:
-                continue  # rounding may legitimately move a+b across the branch boundary
+            near_branch = margin < 1e-12 and margin != 0  # rounding may legitimately move a+b across the branch boundary
             dev = abs(got - float(ref))
-            worst = max(worst, dev)
-            if math.isnan(got) or dev > 1e-12:
+            if not near_branch:
+                worst = max(worst, dev)
+            if not near_branch and (math.isnan(got) or dev > 1e-9):  # DESIGN.md section 5: 1e-9 off the grid (exact on it)
                 ctx.violation(f"{op}.compute/formula/random-double", sample, float(ref), got, note="differs from the documented formula evaluated exactly")
                 continue
             # laws on the code's own outputs
